@@ -79,7 +79,9 @@ def judge(recs, max_workers=8):
             good = rc == 0 and "IMPORT_OK" in st
             imported[(r["dir"], r["file"])] = good
             n_imp += good
-            if not good:
+            if not good and not r.get("key", "").startswith(("rsa", "dsa")):
+                obs["gpg_outside_rfc4880_subset_key_import_rejected"] = obs.get("gpg_outside_rfc4880_subset_key_import_rejected", 0) + 1
+            elif not good:
                 viols.append(dict(key="C20/gpg/key-import-rejected", what="gpg --import refuses a self-signed key block made with the library (%s)" % r.get("key"),
                                   case=r.get("case"), witness=dict(file=os.path.join(r["dir"], r["file"]), status=st, stderr=err[-1500:]), desc=r.get("key", "")))
         obs["gpg_keys_imported"] = n_imp
@@ -90,8 +92,11 @@ def judge(recs, max_workers=8):
             rc, out, err = _run(["--faked-system-time", "%d!" % int(r.get("time", 1600000000)), "--import", os.path.join(r["dir"], r["file"])], h2)
             st = _status(out)
             shutil.rmtree(h2, ignore_errors=True)
+            subset = r.get("primary", "").startswith(("rsa", "dsa")) and r.get("subkey", "").startswith(("rsa", "elg"))
             if rc == 0 and "IMPORT_OK" in st:
                 n_blk += 1
+            elif not subset:
+                obs["gpg_outside_rfc4880_subset_keyblock_import_rejected"] = obs.get("gpg_outside_rfc4880_subset_keyblock_import_rejected", 0) + 1
             else:
                 viols.append(dict(key="C20/gpg/keyblock-import-rejected", what="gpg --import refuses a key block (primary %s, subkey %s) made with the library" % (r.get("primary"), r.get("subkey")),
                                   case=r.get("case"), witness=dict(file=os.path.join(r["dir"], r["file"]), status=st, stderr=err[-1500:]), desc="keyblock"))
@@ -112,7 +117,18 @@ def judge(recs, max_workers=8):
                 accepted = rc == 0 and "GOODSIG" in st and "VALIDSIG" in st
                 # gpg enforces the minimum hash size of RFC 6637 12.2.1 / FIPS 186-3 for ECDSA/DSA keys: outside that
                 # profile its refusal says nothing about the signature
-                judged = bool(r.get("judge")) and r.get("hash") in GPG_HASHES and int(r.get("hash_bits", 0)) >= int(r.get("min_hash_bits", 0))
+                # the property's GnuPG clause covers the RFC 4880 subset: RSA and DSA signatures are judged; ECDSA/EdDSA
+                # (RFC 6637 / 4880bis) verdicts are recorded only
+                subset = r.get("pkalgo") in ("RSA", "DSA")
+                judged = subset and bool(r.get("judge")) and r.get("hash") in GPG_HASHES and int(r.get("hash_bits", 0)) >= int(r.get("min_hash_bits", 0))
+                if not subset:
+                    tag = "gpg_outside_rfc4880_subset_" + ("accepted" if accepted else "rejected")
+                    obs[tag] = obs.get(tag, 0) + 1
+                    if not accepted:
+                        longer = int(r.get("hash_bits", 0)) > int(r.get("min_hash_bits", 0)) > 0 and r.get("pkalgo") == "ECDSA"
+                        cls = "%s/%s%s" % (r.get("key"), r.get("hash"), " (hash longer than the group order)" if longer else "")
+                        obs.setdefault("gpg_outside_rfc4880_subset_rejected_classes", {})
+                        obs["gpg_outside_rfc4880_subset_rejected_classes"][cls] = obs["gpg_outside_rfc4880_subset_rejected_classes"].get(cls, 0) + 1
                 k = "%s/%s/%s" % (r.get("pkalgo"), r.get("hash"), r.get("type"))
                 by[k] = by.get(k, 0) + 1
                 if accepted:
